@@ -2,6 +2,7 @@ package props
 
 import (
 	"fmt"
+	"go/types"
 	"sort"
 	"strings"
 
@@ -56,6 +57,7 @@ func orderRuleFuncsX(c *an.Ctx, cg *an.CG, fns []*ssa.Function, table map[string
 		InvokeClass: es.Invoke,
 		OrderedArgs: es.OrderedArgs,
 		IsSorter:    an.DefaultSorter,
+		UniqueFields: uniqueFieldsTable,
 	}
 	c.Count("repo_functions_analysed", len(fns))
 	n := 0
@@ -78,6 +80,12 @@ func orderRuleFuncsX(c *an.Ctx, cg *an.CG, fns []*ssa.Function, table map[string
 				continue
 			}
 			cl := an.ClassifyMapLoop(c.P, l, cfg)
+			classes, _ := c.Extra["map_loop_classes"].(map[string]string)
+			if classes == nil {
+				classes = map[string]string{}
+				c.Extra["map_loop_classes"] = classes
+			}
+			classes[key+" @"+site] = cl.Kind
 			switch cl.Kind {
 			case "commutative", "collect-then-sort":
 				c.Hold(key, rule, site, cl.Kind)
@@ -249,4 +257,119 @@ func flowsOnlyToTracer(v ssa.Value, seen map[ssa.Value]bool, depth int) bool {
 		}
 	}
 	return true
+}
+
+// uniqueFieldsTable: projections that differ for every two distinct entries of
+// the collections the repository sorts. Confirmed by reading; the first two
+// are additionally checked structurally by mapKeyedByField.
+var uniqueFieldsTable = map[string]string{
+	"PeerPoolItem.PeerPubkey":                    "PeerPoolMap is keyed by the item's PeerPubkey (checked: every insertion uses that key)",
+	"Peer.PeerPubkey":                            "header_sync ConsensusPeers.PeerMap is keyed by the peer's PeerPubkey (checked: every insertion uses that key)",
+	"PeerPoolItemForVm.PeerAddress.ToHexString()": "the address is derived from the peer's public key (the map key) by hashing: injective up to hash collisions",
+	"PeerConfig.ID":                              "vbft peer id = the peer's public key, the key of the peer pool map the list is built from",
+	"PeerStakeInfo.Index":                        "governance assigns each peer a distinct index",
+}
+
+// mapKeyedByField checks the data invariant behind a uniqueFieldsTable entry:
+// every insertion into a map whose value type is *<pkg>.<typ> uses as key the
+// value's own field (the same item's field, the key the item was just looked
+// up with, or the value the item's field was initialised with).
+func mapKeyedByField(c *an.Ctx, pkg, typ, field string, fns []*ssa.Function) int {
+	n := 0
+	for _, fn := range fns {
+		if strings.HasSuffix(c.P.Fset.Position(fn.Pos()).Filename, "_test.go") {
+			continue
+		}
+		idx := 0
+		for _, b := range fn.Blocks {
+			for _, in := range b.Instrs {
+				mu, ok := in.(*ssa.MapUpdate)
+				if !ok {
+					continue
+				}
+				mt, isM := mu.Map.Type().Underlying().(*types.Map)
+				if !isM {
+					continue
+				}
+				nm := namedOfType(mt.Elem())
+				if nm == nil || nm.Obj().Name() != typ || nm.Obj().Pkg() == nil || !strings.HasSuffix(nm.Obj().Pkg().Path(), pkg) {
+					continue
+				}
+				n++
+				idx++
+				key := fmt.Sprintf("keyed-by|%s.%s|%s#%d", typ, field, an.FuncName(fn), idx)
+				c.Check(keyIsOwnField(mu, field), key, "every entry of a map of "+typ+" is stored under the entry's own "+field+" (so sorting by "+field+" is a total order on the entries)", c.P.Rel(mu.Pos()),
+					"the key is not recognisably the stored item's "+field)
+			}
+		}
+	}
+	return n
+}
+
+func namedOfType(t types.Type) *types.Named {
+	if p, ok := t.(*types.Pointer); ok {
+		t = p.Elem()
+	}
+	nm, _ := t.(*types.Named)
+	return nm
+}
+
+func keyIsOwnField(mu *ssa.MapUpdate, field string) bool {
+	samePath := func(a, b ssa.Value) bool {
+		if a == b {
+			return true
+		}
+		pa, pb := an.AccessPath(a), an.AccessPath(b)
+		return pa != "" && pa == pb
+	}
+	val := mu.Value
+	// (a) key is a load of val.<field>
+	if f := fieldOfLoad(mu.Key); f != nil && f.Name() == field {
+		if base := baseOfField(mu.Key, field); base != nil && (base == val || samePath(base, val)) {
+			return true
+		}
+	}
+	// (d) copying an entry of another map of the same kind: key and value are
+	// the key and value of one range step
+	if ek, ok := mu.Key.(*ssa.Extract); ok {
+		if ev, ok2 := val.(*ssa.Extract); ok2 && ek.Tuple == ev.Tuple && ek.Index == 1 && ev.Index == 2 {
+			if nx, isNext := ek.Tuple.(*ssa.Next); isNext {
+				if rg, isR := nx.Iter.(*ssa.Range); isR && types.Identical(rg.X.Type().Underlying(), mu.Map.Type().Underlying()) {
+					return true
+				}
+			}
+		}
+	}
+	for _, src := range an.AllSources(val) {
+		src = an.Origin(src)
+		switch x := src.(type) {
+		case *ssa.Lookup:
+			// (b) the item was looked up in a map with the same key
+			if samePath(x.Index, mu.Key) {
+				return true
+			}
+		case *ssa.Extract:
+			if lk, ok := x.Tuple.(*ssa.Lookup); ok && samePath(lk.Index, mu.Key) {
+				return true
+			}
+		case *ssa.Alloc:
+			// (c) a fresh item whose field was initialised with the key
+			if x.Referrers() == nil {
+				continue
+			}
+			for _, r := range *x.Referrers() {
+				if fa, ok := r.(*ssa.FieldAddr); ok && fa.Referrers() != nil {
+					if f := an.FieldOf(fa); f == nil || f.Name() != field {
+						continue
+					}
+					for _, r2 := range *fa.Referrers() {
+						if st, isSt := r2.(*ssa.Store); isSt && samePath(st.Val, mu.Key) {
+							return true
+						}
+					}
+				}
+			}
+		}
+	}
+	return false
 }
